@@ -443,6 +443,19 @@ func mutations(part, parts int) {
 					judgeStream(l[:p]+string(s)+l[p:]+follow, fmt.Sprintf("insertion %q at %d", s, p))
 				}
 			}
+			// every byte value put in and put in place of, at every position (for the
+			// lines of the first time stamp): blanks of every kind, control
+			// characters, bytes above 0x7F
+			if n < len(msgs) {
+				for p := 0; p <= len(l); p++ {
+					for v := 0; v < 256; v++ {
+						judgeStream(l[:p]+string([]byte{byte(v)})+l[p:]+follow, fmt.Sprintf("insertion of %02X at %d", v, p))
+						if p < len(l) && l[p] != byte(v) {
+							judgeStream(l[:p]+string([]byte{byte(v)})+l[p+1:]+follow, fmt.Sprintf("substitution by %02X at %d", v, p))
+						}
+					}
+				}
+			}
 			// the mutated line as the last line of the stream too
 			for p := 0; p < len(l); p++ {
 				judgeStream(follow+l[:p]+l[p+1:], fmt.Sprintf("deletion at %d, last line", p))
@@ -537,6 +550,57 @@ func edges(part, parts int) {
 	}
 }
 
+// reusedReader: one reader object serves one stream after the other (a
+// strings.Reader that is Reset, a bytes.Buffer that is refilled): the first
+// stream ends at every position, inside a line too, and is read to its end;
+// the second stream must then decode exactly as it does from a fresh reader.
+func reusedReader() {
+	first := "11 903C40\n-5 F8\n2147483647 F07E7F0901F7\n"
+	seconds := []string{"3 904000\n", "17 C0\n9 B0077F\n", "F8\n", "", "23 904000"}
+	same := func(a, b []result) bool {
+		if len(a) != len(b) {
+			return false
+		}
+		for i := range a {
+			if a[i].ok != b[i].ok || a[i].eof != b[i].eof || (a[i].err != "") != (b[i].err != "") || a[i].rec.ts != b[i].rec.ts || !bytes.Equal(a[i].rec.msg, b[i].rec.msg) {
+				return false
+			}
+		}
+		return true
+	}
+	for cut := 0; cut <= len(first); cut++ {
+		for _, second := range seconds {
+			fresh, _ := decodeAll(strings.NewReader(second), 6)
+			for kind := 0; kind < 2; kind++ {
+				ctx.Eval()
+				ctx.Add("reused_reader_cases", 1)
+				var got []result
+				var c engine.Caught
+				if kind == 0 {
+					rd := strings.NewReader(first[:cut])
+					decodeAll(rd, 6)
+					rd.Reset(second)
+					got, c = decodeAll(rd, 6)
+				} else {
+					var buf bytes.Buffer
+					buf.WriteString(first[:cut])
+					decodeAll(&buf, 6)
+					buf.Reset()
+					buf.WriteString(second)
+					got, c = decodeAll(&buf, 6)
+				}
+				if c.Panicked {
+					report(c.Sig+":reused-reader", first[:cut]+"|"+second, nil, "panicked: "+c.Value)
+					continue
+				}
+				if !same(got, fresh) {
+					report("reused-reader:second-stream-differs", first[:cut]+"|"+second, []int{cut, kind}, fmt.Sprintf("a reader that had served %q to its end and was then given %q: decodes to %v, a fresh reader gives %v", first[:cut], second, got, fresh))
+				}
+			}
+		}
+	}
+}
+
 // twoStreams: two independent record streams decoded by two threads that are
 // switched inside their Read calls (every schedule with at most two switches).
 func twoStreams() {
@@ -613,6 +677,10 @@ func main() {
 			twoStreams()
 			ctx.Finish("replay")
 		}
+		if sig, _ := m["signature"].(string); strings.Contains(sig, "reused-reader") {
+			reusedReader()
+			ctx.Finish("replay")
+		}
 		s, _ := strconv.Unquote(m["stream"].(string))
 		if int(m["stream_len"].(float64)) == len(s) {
 			judgeStream(s, "replay")
@@ -630,7 +698,7 @@ func main() {
 	ctx.Jobs("lossless", 16, func(j int) { losslessSpace(j, 16) })
 	ctx.Jobs("mutations", 16, func(j int) { mutations(j, 16) })
 	ctx.Jobs("edges", 16, func(j int) { edges(j, 16) })
-	ctx.Jobs("two-streams", 1, func(int) { twoStreams() })
+	ctx.Jobs("two-streams", 1, func(int) { twoStreams(); reusedReader() })
 	if !ctx.IsChild() {
 		ctx.RacePairs("midicat")
 	}
